@@ -96,7 +96,7 @@ class MuckMonitor:
             hands = [[[strength(holes[i] + boards[b], t) for t in tn] for b in range(nb)] if live[i]
                      else [[None] * len(tn)] * nb for i in range(n)]
         exp, info = P.award(n, acc['contrib'], acc['pooled'], live, hands, nb, len(tn), C.DIVMODS.get(ctx.cfg.get('divmod'), P.ref_divmod),
-                            lambda a: st.rake(a, st))
+                            (lambda a: st.rake(a, st)) if ctx.cfg.get('rake') else (lambda a: (0, a)))
         ctx.counters['showdowns_compared'] += 1
         if exp is None:
             ctx.counters['undetermined_' + info] += 1
@@ -112,7 +112,7 @@ class MuckMonitor:
             if all(exp[i] == 0 for i in range(n) if auto_out[i]):
                 live2 = [live[i] and not auto_out[i] for i in range(n)]
                 hands2 = [hands[i] if live2[i] else [[None] * len(tn)] * nb for i in range(n)]
-                exp2, _ = P.award(n, acc['contrib'], acc['pooled'], live2, hands2, nb, len(tn), C.DIVMODS.get(ctx.cfg.get('divmod'), P.ref_divmod), lambda a: st.rake(a, st))
+                exp2, _ = P.award(n, acc['contrib'], acc['pooled'], live2, hands2, nb, len(tn), C.DIVMODS.get(ctx.cfg.get('divmod'), P.ref_divmod), (lambda a: st.rake(a, st)) if ctx.cfg.get('rake') else (lambda a: (0, a)))
                 if exp2 is not None and list(st.payoffs) == [exp2[i] - acc['in_pot'][i] for i in range(n)]:
                     shape = 'dead-hand-removed-pots-merge-odd-chips'
             ctx.violation('payoffs-differ-from-table-all', detail, sig=(self.prop, 'payoffs-differ', shape))
